@@ -1,4 +1,5 @@
 """C15 — KIP parsing is total, bounded, deterministic and classifies by content.  (DESIGN §4 C15)"""
+import os
 import re
 import sys
 
@@ -436,6 +437,55 @@ def run(rep, tier):
                 consts = sorted({o_[1][2]["a"].get("v") for o_ in org if o_[0] == "agg"} | {"const" for o_ in org if o_[0] == "const"})
                 rep.ob("R15.6", "flavor-threaded|%s->%s" % (o.path.rsplit("::", 1)[1], cal.path.rsplit("::", 1)[1]), bool(org) and not consts,
                        "%s was given a Flavor but calls %s with the constant %s" % (o.path.rsplit("::", 1)[1], cal.path.rsplit("::", 1)[1], consts), e.where())
+    # ------------------------------------------------------------------ R15.8 limits and build switches the round trip depends on
+    rep.rule("R15.8", "what 'survives a JSON encode/decode unchanged' and 'bounded work' depend on outside the grammar: the nesting budget times the JSON "
+             "levels a source bracket costs stays under serde_json's recursion limit; serde_json is built with float_roundtrip; whole-plan validation "
+             "copies no plan-wide set per clause; the two whitespace skippers use one predicate", floor=4)
+    from lib import facts as _facts
+    depth = [k.get("int") for pth, k in prog.consts.items() if pth == "anda_kip::parser::MAX_KIP_NESTING_DEPTH"]
+    # reviewed on the AST: a nested NOT / Proposition / array / update function costs at most 3 JSON levels per source bracket
+    # ({"Not": [ {..} ]}: variant object, payload array, element object); serde_json refuses to decode beyond 128 levels
+    JSON_LEVELS_PER_BRACKET, SERDE_JSON_RECURSION_LIMIT = 3, 128
+    rep.ob("R15.8", "nesting-budget-fits-json-recursion-limit|MAX_KIP_NESTING_DEPTH",
+           bool(depth) and depth[0] is not None and int(depth[0]) * JSON_LEVELS_PER_BRACKET < SERDE_JSON_RECURSION_LIMIT,
+           "MAX_KIP_NESTING_DEPTH = %s: a command nested that deep is accepted, yet its tree nests up to %d JSON levels per bracket and serde_json stops decoding "
+           "at %d - serde_json::from_str::<Command>(to_string(cmd)) answers `recursion limit exceeded` for a command the parser accepted (and in an unoptimized "
+           "build the descent overflows a 2 MiB thread stack before that)" % (depth, JSON_LEVELS_PER_BRACKET, SERDE_JSON_RECURSION_LIMIT),
+           "rs/anda_kip/src/parser.rs")
+    try:
+        import tomllib
+        with open(os.path.join(_facts.REPO, "Cargo.toml"), "rb") as fh:
+            ws = tomllib.load(fh)
+        sj = ((ws.get("workspace") or {}).get("dependencies") or {}).get("serde_json")
+        with open(os.path.join(_facts.REPO, "rs/anda_kip/Cargo.toml"), "rb") as fh:
+            kip = tomllib.load(fh)
+        own = (kip.get("dependencies") or {}).get("serde_json")
+    except Exception as exc:          # fail closed
+        raise CheckerFault("cannot read the serde_json dependency declaration: %s" % exc)
+    feats = set()
+    for d_ in (sj, own):
+        if isinstance(d_, dict):
+            feats |= set(d_.get("features") or [])
+    rep.ob("R15.8", "serde-json-float-roundtrip|Cargo.toml", "float_roundtrip" in feats,
+           "serde_json is built without `float_roundtrip` (features %s): Number::from_str stores some 16-18 digit decimals one ULP off and every JSON encode/decode "
+           "of the tree shifts them again - FIND(?x) WHERE { FILTER(?x > 0.98953424590239882) } does not survive the round trip unchanged" % sorted(feats), "Cargo.toml")
+    vp_ = prog.fn(P + "::kml::validate_plan")
+    heads_ = [e.block for e in vp_.calls_named(r"Iterator>?::next$")]
+    copies = [e for e in vp_.calls_named(r"clone::Clone>?::clone$")
+              if re.search(r"BTree(Set|Map)<|HashSet<|HashMap<|Vec<", (e.finfo or {}).get("self", "") + vp_.locals[e.dest.l])
+              and any(vp_.dominates(h, e.block) and vp_.can_reach([e.block], [h]) for h in heads_)]
+    rep.ob("R15.8", "no-plan-wide-copy-per-clause|validate_plan", bool(heads_) and not copies,
+           "validate_plan clones a collection inside its loop over the clauses: a plan of n creating clauses costs n^2 to validate - a 256 KiB MUTATE block of "
+           "CREATE CONCEPT clauses takes 10 s, and a request may batch 256 of them", (copies[0].where() if copies else vp_.file))
+    isws = lambda g: any(re.search(r"char::methods::<impl char>::is_whitespace$", e.name or "") for k_ in [g] + list(prog.closures_of(g)) for e in k_.events)
+    sk = prog.fn(P + "::json::skip_ws_and_comments")
+    t1 = prog.fn(P + "::common::trivia1")
+    ascii_only = [e for k_ in [t1] + list(prog.closures_of(t1)) for e in k_.events if re.search(r"character::complete::(multispace[01]|space[01])", e.name or "")]
+    rep.ob("R15.8", "one-whitespace-predicate|trivia1", isws(sk) and isws(t1) and not ascii_only,
+           "skip_ws_and_comments skips char::is_whitespace while trivia1 (between the words of a keyword) accepts ASCII whitespace only: U+00A0, U+2003, U+3000 .. "
+           "separate tokens everywhere else but `ORDER<U+00A0>BY`, `AS<ws>OF`, `CREATE<ws>CONCEPT` are syntax errors - the parsed command depends on "
+           "inter-token whitespace", t1.file + ":%d" % t1.line)
+
     return rep.finish(EXPLAIN)
 
 
